@@ -9,6 +9,7 @@ import (
 	"fmt"
 	"sort"
 	"strings"
+	"time"
 
 	"github.com/flosch/pongo2/v6"
 	"github.com/flosch/pongo2/v6/vsched"
@@ -27,6 +28,9 @@ type Case struct {
 	Bound    int               `json:"bound"`
 	MaxSched int               `json:"max_schedules"`
 	Label    string            `json:"label"`
+	// FirstUse: the case runs in a fresh process and the schedules are explored BEFORE any sequential execution,
+	// so that state which pongo2 initialises lazily on first use is initialised under the scheduler
+	FirstUse bool `json:"first_use,omitempty"`
 }
 
 func (c *Case) ID() string {
@@ -40,6 +44,9 @@ func (c *Case) ID() string {
 		fmt.Fprintf(&b, "%s=%q ", k, c.Files[k])
 	}
 	fmt.Fprintf(&b, "trim=%v ops=%v bound=%d", c.Trim, c.Ops, c.Bound)
+	if c.FirstUse {
+		b.WriteString(" first-use")
+	}
 	return b.String()
 }
 
@@ -53,11 +60,13 @@ func pkgVarRanges() [][2]uintptr {
 
 // keptBytes holds results of ExecuteBytes without copying them; String() is called when the execution is judged
 type keptBytes struct {
-	b1, b2     []byte
-	e1, e2     bool
+	b1, b2 []byte
+	e1, e2 bool
 }
 
-func (k keptBytes) String() string { return fmt.Sprintf("%q %v | %q %v", string(k.b1), k.e1, string(k.b2), k.e2) }
+func (k keptBytes) String() string {
+	return fmt.Sprintf("%q %v | %q %v", string(k.b1), k.e1, string(k.b2), k.e2)
+}
 
 type world struct {
 	set    *pongo2.TemplateSet
@@ -151,53 +160,64 @@ func (c *Case) Exec(t *eng.T) {
 		return
 	}
 	t.Nontrivial()
+	pkgRanges := pkgVarRanges()
+	mk := func(judge func([]any) string) func() ([]func() any, [][2]uintptr, func([]any) string) {
+		return func() ([]func() any, [][2]uintptr, func([]any) string) {
+			w, _ := c.newWorld()
+			var bodies []func() any
+			for _, o := range c.Ops {
+				bodies = append(bodies, w.op(o))
+			}
+			roots := map[string]any{"tpl": w.tpl, "set": w.set}
+			for _, v := range pongo2.VerifPkgVars() {
+				roots["pkg."+v.Name] = v.Ptr // everything reachable from package-level variables is shared, too
+			}
+			shared := deep.Ranges(roots)
+			shared = append(shared, pkgRanges...)
+			return bodies, shared, judge
+		}
+	}
+	report := func(st *xplore.Stats) {
+		t.AddStates(int64(st.Schedules))
+		t.AddTransitions(int64(st.Points))
+		t.AddExtra("distinct_interleavings_executed", int64(len(st.DistinctTraces)))
+		t.AddExtra("max_points_in_one_schedule", int64(st.MaxPoints))
+		if !st.Complete {
+			t.AddExtra("scenarios_capped", 1)
+		}
+		for _, f := range st.Findings {
+			if f.Kind == "nondeterministic" {
+				// a replay that diverges is a fault of the harness' control over nondeterminism (e.g. Go map order
+				// deciding the order of events), not a statement about the property: counted, never an alarm
+				t.AddExtra("scenarios_with_nondeterministic_replay", 1)
+				continue
+			}
+			t.Fail(f.Key, "%s [%s] schedule=%v", f.Desc, c.ID(), f.Schedule)
+		}
+	}
+	if c.FirstUse {
+		// nothing of this program has been executed in this process yet: the first schedules see the first use
+		st := xplore.Explore(xplore.Scenario{Name: c.Label, Make: mk(func([]any) string { return "" })}, c.Bound, c.MaxSched, t.Heartbeat)
+		report(st)
+		t.AddExtra("first_use_scenarios", 1)
+	}
 	// solo results: every operation alone on its own fresh world
 	solo := make([]string, len(c.Ops))
 	for i, o := range c.Ops {
 		w, _ := c.newWorld()
 		solo[i] = fmt.Sprint(w.op(o)())
 	}
-	pkgRanges := pkgVarRanges()
-	sc := xplore.Scenario{Name: c.Label, Make: func() ([]func() any, [][2]uintptr, func([]any) string) {
-		w, _ := c.newWorld()
-		var bodies []func() any
-		for _, o := range c.Ops {
-			bodies = append(bodies, w.op(o))
-		}
-		roots := map[string]any{"tpl": w.tpl, "set": w.set}
-		for _, v := range pongo2.VerifPkgVars() {
-			roots["pkg."+v.Name] = v.Ptr // everything reachable from package-level variables is shared, too
-		}
-		shared := deep.Ranges(roots)
-		shared = append(shared, pkgRanges...)
-		judge := func(res []any) string {
-			for i, r := range res {
-				if fmt.Sprint(r) != solo[i] {
-					return fmt.Sprintf("thread %d (%s) returned %v; running alone it returns %s", i, c.Ops[i], r, solo[i])
-				}
+	judge := func(res []any) string {
+		for i, r := range res {
+			if fmt.Sprint(r) != solo[i] {
+				return fmt.Sprintf("thread %d (%s) returned %v; running alone it returns %s", i, c.Ops[i], r, solo[i])
 			}
-			return ""
 		}
-		return bodies, shared, judge
-	}}
-	st := xplore.Explore(sc, c.Bound, c.MaxSched, t.Heartbeat)
-	t.AddStates(int64(st.Schedules))
-	t.AddTransitions(int64(st.Points))
-	t.AddExtra("distinct_interleavings_executed", int64(len(st.DistinctTraces)))
-	t.AddExtra("max_points_in_one_schedule", int64(st.MaxPoints))
-	if !st.Complete {
-		t.AddExtra("scenarios_capped", 1)
+		return ""
 	}
+	st := xplore.Explore(xplore.Scenario{Name: c.Label, Make: mk(judge)}, c.Bound, c.MaxSched, t.Heartbeat)
+	report(st)
 	t.Outcome(fmt.Sprint(len(st.DistinctOut), st.Schedules > 2))
-	for _, f := range st.Findings {
-		if f.Kind == "nondeterministic" {
-			// a replay that diverges is a fault of the harness' control over nondeterminism (e.g. Go map order
-			// deciding the order of events), not a statement about the property: counted, never an alarm
-			t.AddExtra("scenarios_with_nondeterministic_replay", 1)
-			continue
-		}
-		t.Fail(f.Key, "%s [%s] schedule=%v", f.Desc, c.ID(), f.Schedule)
-	}
 }
 
 func run(r *eng.Runner) {
@@ -209,7 +229,10 @@ func run(r *eng.Runner) {
 	r.Group("exec-exec", "c05.case", fmt.Sprintf("two threads executing ONE compiled template (every C04 program, options off and TrimBlocks+LStripBlocks) with different contexts (also the failing one), every schedule up to %d preemption(s); stores into memory reachable from the template/set/package variables are scheduling points, loader I/O too", bound))
 	for i, n := range names {
 		for _, trim := range []bool{false, true} {
-			for _, ops := range [][]string{{"exec:0", "exec:1"}, {"exec:0", "exec:2"}, {"execwriter:1", "unbuffered:0"}, {"execbytes:0", "execbytes:1"}} {
+			for oi, ops := range [][]string{{"exec:0", "exec:1"}, {"exec:0", "exec:2"}, {"execwriter:1", "unbuffered:0"}, {"execbytes:0", "execbytes:1"}} {
+				if strings.HasSuffix(n, "-deep") && (oi > 0 || trim) {
+					continue // 600 nested calls per execution: one pairing is enough (every scheduling point inside the recursion multiplies the schedules)
+				}
 				r.Do(&Case{Files: files[i], Trim: trim, Ops: ops, Bound: bound, MaxSched: maxS, Label: "exec-exec:" + n})
 			}
 		}
@@ -218,6 +241,15 @@ func run(r *eng.Runner) {
 		r.Group("exec-exec-exec", "c05.case", "three threads executing one compiled template, preemption bound 1")
 		for i, n := range names {
 			r.Do(&Case{Files: files[i], Trim: true, Ops: []string{"exec:0", "exec:1", "exec:2"}, Bound: 1, MaxSched: maxS, Label: "exec3:" + n})
+		}
+	}
+	r.Group("first-use", "c05.case", "the same two-thread scenarios in a FRESH process each, explored before anything of the program was executed sequentially (lazily initialised or process-wide state is first touched under the scheduler); programs whose execution fails inside a filter, a tag or a call, and the deep macro recursions")
+	for i, n := range names {
+		if !strings.HasPrefix(n, "filter-error") && !strings.HasSuffix(n, "-deep") && n != "calls" && n != "now" && n != "lorem" && n != "filters" && n != "include-lazy" {
+			continue
+		}
+		for _, ops := range [][]string{{"exec:0", "exec:1"}, {"exec:1", "exec:2"}} {
+			r.DoIsolated(&Case{Files: files[i], Ops: ops, Bound: bound, MaxSched: 400, Label: "first-use:" + n, FirstUse: true}, 120*time.Second)
 		}
 	}
 	r.Group("exec-compile", "c05.case", "one thread executes a compiled template while another compiles (FromString / FromFile) or fetches (FromCache) in the same set; cache operations against each other")
@@ -248,7 +280,7 @@ func init() {
 	eng.Register(&eng.Check{
 		ID:    "C05",
 		Title: "One compiled template can be executed from many goroutines at once",
-		Rule: "stateless model checking of the real code under a controlled scheduler: for every scenario (k threads, one operation each, on one freshly built shared template/set per schedule) ALL schedules up to the preemption bound are executed (iterative context bounding, depth-first over recorded choice points; scheduling points = mutex operations, loader I/O, and every instrumented store into memory reachable from the shared template, set or package variables). Per schedule: each thread's result must equal its solo result, a FastTrack-style vector-clock detector over all instrumented loads/stores must find no happens-before-unordered conflicting pair, and there must be no deadlock. states = schedules executed, transitions = scheduling decisions. The first schedule of every scenario is executed twice and the event traces compared (determinism of replay).",
+		Rule:  "stateless model checking of the real code under a controlled scheduler: for every scenario (k threads, one operation each, on one freshly built shared template/set per schedule) ALL schedules up to the preemption bound are executed (iterative context bounding, depth-first over recorded choice points; scheduling points = mutex operations, loader I/O, and every instrumented store into memory reachable from the shared template, set or package variables). Per schedule: each thread's result must equal its solo result, a FastTrack-style vector-clock detector over all instrumented loads/stores must find no happens-before-unordered conflicting pair, and there must be no deadlock. states = schedules executed, transitions = scheduling decisions. The first schedule of every scenario is executed twice and the event traces compared (determinism of replay).",
 		Assumptions: []string{
 			"pongo2 is compiled through the source instrumenter (/verif/instr): loads/stores inside the standard library are not seen by the vector-clock detector",
 			"sequential consistency: weak-memory effects below Go's happens-before model are outside this check; the quantifier's static clause is another family and not covered",
